@@ -13,6 +13,8 @@
 //	        Kp / Kt persist tick of the persistent / transient store
 //	        R<n><p|t> loader turn with the push of message n (flushed at once) landing inside it: after the loader's two
 //	        iterations, before it pushes what it loaded and writes swappedToDisk (the loader holds no lock)
+//	        Z restart: graceful stop at quiescence (both stores write out what is pending), the queue object is dropped,
+//	        the transient store is wiped, a fresh queue runs LoadFromMsgStorage over the same persistent store
 //	        script-only: o = "ready pop": while the ring is empty and the queue is swapped (at most 3 times)
 //	        run Kp Kt L, then O (printed expanded);  q / a = requeue / ack the oldest outstanding delivery
 //	obs     one per label: <out>:<swapped 0|1>,<lastStored>,<lastMem>,<queueLength>,<ringLength>
@@ -66,16 +68,11 @@ type loaderSync struct {
 }
 
 type memDB struct {
-	mu    sync.Mutex
-	m     map[string][]byte
-	calls []string
-	sync  *loaderSync
-	isP   bool
+	mu sync.Mutex
+	m  map[string][]byte
 }
 
-func newMemDB(s *loaderSync, isP bool) *memDB {
-	return &memDB{m: map[string][]byte{}, sync: s, isP: isP}
-}
+func newMemDB() *memDB { return &memDB{m: map[string][]byte{}} }
 
 func (d *memDB) keys() []string {
 	ks := make([]string, 0, len(d.m))
@@ -153,9 +150,20 @@ func (d *memDB) IterateByPrefix(prefix []byte, limit uint64, fn func(key []byte,
 }
 
 func (d *memDB) IterateByPrefixFrom(prefix []byte, from []byte, limit uint64, fn func(key []byte, value []byte)) uint64 {
-	// Inside a loader turn the two iterations run in two goroutines that share a variable; the harness
-	// lets the persistent store's iteration (and the check that follows it) finish before the transient
-	// one starts, which is the order the model assumes.
+	return d.iterFrom(prefix, from, limit, fn)
+}
+
+// orderedDB wraps an engine (the in-memory one or the real storage.Badger): every call is delegated; inside a
+// loader turn the two IterateByPrefixFrom calls (two goroutines that share a variable in the code) are ordered
+// persistent-then-transient, which is the order the model assumes, and an injected push (label R) runs right
+// after the transient iteration returned.
+type orderedDB struct {
+	interfaces.DbStorage
+	sync *loaderSync
+	isP  bool
+}
+
+func (d *orderedDB) IterateByPrefixFrom(prefix []byte, from []byte, limit uint64, fn func(key []byte, value []byte)) uint64 {
 	s := d.sync
 	s.mu.Lock()
 	active, ch := s.active, s.pDone
@@ -180,7 +188,7 @@ func (d *memDB) IterateByPrefixFrom(prefix []byte, from []byte, limit uint64, fn
 		}
 		time.Sleep(300 * time.Microsecond)
 	}
-	n := d.iterFrom(prefix, from, limit, fn)
+	n := d.DbStorage.IterateByPrefixFrom(prefix, from, limit, fn)
 	if active && !d.isP {
 		s.mu.Lock()
 		inj := s.inject
@@ -234,7 +242,11 @@ const qname = "q"
 
 type rig struct {
 	q        *queue.Queue
-	pdb, tdb *memDB
+	pe, te   interfaces.DbStorage
+	durable  bool
+	shard    int
+	maxram   uint64
+	dir      string
 	pst, tst *msgstorage.MsgStorage
 	sync     *loaderSync
 	ord      map[uint64]int // real id -> push ordinal
@@ -253,24 +265,97 @@ func engineKeys(e interfaces.DbStorage) []string {
 	return ks
 }
 
-func newRig(durable bool, shard int, maxram uint64) *rig {
-	s := &loaderSync{}
-	r := &rig{sync: s, ord: map[uint64]int{}, msgs: map[int]*amqp.Message{}, pers: map[int]bool{}, next: 1}
-	r.pdb, r.tdb = newMemDB(s, true), newMemDB(s, false)
-	var pe, te interfaces.DbStorage = r.pdb, r.tdb
-	if engine == "bunt" {
-		pe, te = storage.NewBuntDB(config.DbPathMemory), storage.NewBuntDB(config.DbPathMemory)
-		r.pkeys = func() []string { return engineKeys(pe) }
-		r.tkeys = func() []string { return engineKeys(te) }
-	} else {
-		r.pkeys = func() []string { r.pdb.mu.Lock(); defer r.pdb.mu.Unlock(); return r.pdb.keys() }
-		r.tkeys = func() []string { r.tdb.mu.Lock(); defer r.tdb.mu.Unlock(); return r.tdb.keys() }
+var badgerDir = ""     // -dir: where the real badger engines of a case live (removed after the case)
+var neighbours = false // -neighbours: queues "p" and "q2" (names sorting just before / after "q") hold messages in the same stores
+var caseSeq = 0
+
+func (r *rig) openEngine(persistent bool) interfaces.DbStorage {
+	switch engine {
+	case "bunt":
+		return storage.NewBuntDB(config.DbPathMemory)
+	case "badger":
+		sub := "t"
+		if persistent {
+			sub = "p"
+		}
+		path := fmt.Sprintf("%s/%s", r.dir, sub)
+		if !persistent {
+			os.RemoveAll(path) // server.go getStorageInstance: the transient store is wiped at boot
+		}
+		if err := os.MkdirAll(path, 0o777); err != nil {
+			panic(err)
+		}
+		return storage.NewBadger(path)
 	}
-	r.pst = msgstorage.VerifNewMsgStorage(pe, amqp.ProtoRabbit)
-	r.tst = msgstorage.VerifNewMsgStorage(te, amqp.ProtoRabbit)
-	r.q = queue.NewQueue(qname, 0, false, false, durable, config.Queue{ShardSize: shard, MaxMessagesInRAM: maxram}, r.pst, r.tst, make(chan string, 16))
+	return newMemDB()
+}
+
+func queueKeys(e interfaces.DbStorage) []string {
+	var ks []string
+	for _, k := range engineKeys(e) {
+		if strings.HasPrefix(k, "msg."+qname+".") { // the neighbours' keys are not this queue's
+			ks = append(ks, k)
+		}
+	}
+	return ks
+}
+
+// (re)build the queue object and the two message stores over the engines; boot = a restart: LoadFromMsgStorage
+func (r *rig) build(boot bool) {
+	r.pst = msgstorage.VerifNewMsgStorage(&orderedDB{r.pe, r.sync, true}, amqp.ProtoRabbit)
+	r.tst = msgstorage.VerifNewMsgStorage(&orderedDB{r.te, r.sync, false}, amqp.ProtoRabbit)
+	r.q = queue.NewQueue(qname, 0, false, false, r.durable, config.Queue{ShardSize: r.shard, MaxMessagesInRAM: r.maxram}, r.pst, r.tst, make(chan string, 16))
+	if boot && r.durable {
+		r.q.LoadFromMsgStorage()
+	}
 	r.q.VerifActivate()
+}
+
+func newRig(durable bool, shard int, maxram uint64) *rig {
+	r := &rig{sync: &loaderSync{}, ord: map[uint64]int{}, msgs: map[int]*amqp.Message{}, pers: map[int]bool{}, next: 1,
+		durable: durable, shard: shard, maxram: maxram}
+	if engine == "badger" {
+		caseSeq++
+		r.dir = fmt.Sprintf("%s/case-%d-%d", badgerDir, os.Getpid(), caseSeq)
+	}
+	r.pe, r.te = r.openEngine(true), r.openEngine(false)
+	r.pkeys = func() []string { return queueKeys(r.pe) }
+	r.tkeys = func() []string { return queueKeys(r.te) }
+	r.build(false)
+	if neighbours {
+		// two durable queues whose names sort just before and just after ours share the stores and keep two
+		// persistent messages each for the whole case
+		for _, name := range []string{"p", qname + "2"} {
+			nq := queue.NewQueue(name, 0, false, false, true, config.Queue{ShardSize: shard, MaxMessagesInRAM: 1000}, r.pst, r.tst, make(chan string, 16))
+			nq.VerifActivate()
+			nq.Push(newMessage(true, 0))
+			nq.Push(newMessage(true, 0))
+		}
+		r.pst.VerifPersist()
+	}
 	return r
+}
+
+func (r *rig) close() {
+	if engine == "badger" {
+		r.pe.Close()
+		r.te.Close()
+		os.RemoveAll(r.dir)
+	}
+}
+
+// graceful stop at quiescence, then boot
+func (r *rig) restart() {
+	r.pst.VerifPersist()
+	r.tst.VerifPersist()
+	if engine == "badger" {
+		r.pe.Close()
+		r.te.Close()
+		r.pe = r.openEngine(true)
+	}
+	r.te = r.openEngine(false)
+	r.outst = nil
+	r.build(true)
 }
 
 func (r *rig) ordOf(id uint64) string {
@@ -402,6 +487,9 @@ func (r *rig) exec(tok string) (label string, out string, err error) {
 		r.msgs[n] = m
 		r.pers[n] = p
 		return fmt.Sprintf("R%d%s", n, flag2(p)), "_", nil
+	case 'Z':
+		r.restart()
+		return "Z", "_", nil
 	case 'K':
 		if tok == "Kp" {
 			r.pst.VerifPersist()
@@ -459,6 +547,7 @@ func runScript(durable bool, shard int, maxram uint64, script []string) (line st
 		}
 	}()
 	r := newRig(durable, shard, maxram)
+	defer r.close()
 	do := func(tok string) error {
 		l, o, err := r.exec(tok)
 		if err != nil {
@@ -501,9 +590,20 @@ func runScript(durable bool, shard int, maxram uint64, script []string) (line st
 	return fmt.Sprintf("%s|%s|%s|%s", head, strings.Join(labels, " "), strings.Join(obs, " "), r.final())
 }
 
+// tags of a case line: the engine and whether neighbour queues share the stores (needed to replay it)
+func tags() string {
+	n := 0
+	if neighbours {
+		n = 1
+	}
+	return fmt.Sprintf("e=%s,n=%d", engine, n)
+}
+
 // ---- generators ------------------------------------------------------------------------------------
 
 // a client script in a random schedule: ticks and loader turns at random positions
+var genRestarts = false
+
 func genRandom(r *hx.Rng, n int, durable bool) []string {
 	var s []string
 	bias := r.Intn(3)
@@ -520,6 +620,10 @@ func genRandom(r *hx.Rng, n int, durable bool) []string {
 			pPush, pPop = 55, 12
 		}
 		k := r.Intn(100)
+		if genRestarts && durable && r.Chance(1, 25) {
+			s = append(s, "Z")
+			continue
+		}
 		switch {
 		case k < pPush:
 			if r.Chance(1, 2) {
@@ -587,8 +691,12 @@ func genClient(r *hx.Rng, n int) []string {
 		case k < pPush+pPop+16:
 			s = append(s, "a")
 		default:
-			// harmless extra internal turns
-			s = append(s, []string{"Kp", "Kt", "Kp", "Kt"}[r.Intn(4)])
+			// harmless extra internal turns, or a restart
+			if genRestarts && r.Chance(1, 3) {
+				s = append(s, "Z")
+			} else {
+				s = append(s, []string{"Kp", "Kt", "Kp", "Kt"}[r.Intn(4)])
+			}
 		}
 	}
 	for i := 0; i < pushed+2; i++ {
@@ -605,8 +713,13 @@ func cmdRun(args []string) error {
 	n := fs.Int("n", 300, "random-schedule cases")
 	g := fs.Int("groups", 40, "friendly groups (one client script under every configuration pair)")
 	maxLen := fs.Int("len", 40, "max client ops per case")
+	fs.StringVar(&engine, "engine", "mem", "mem (in-memory engine) | badger (the real storage.Badger wrapper, needs -dir)")
+	fs.StringVar(&badgerDir, "dir", "", "directory for the badger engines")
+	fs.BoolVar(&neighbours, "neighbours", false, "queues p and q2 keep messages in the same stores")
+	restarts := fs.Bool("restarts", false, "durable random cases contain restarts (label Z)")
 	exh := fs.Int("exhaustive", 0, "after 'Pt Pt Pt' under limit 2 (the next push overflows): every label sequence up to this length over {Pt,Pp,O,L,Kp,Kt,q,X}, then a drain; durable and not")
 	fs.Parse(args)
+	genRestarts = *restarts
 	w := bufio.NewWriter(os.Stdout)
 	defer w.Flush()
 	if *exh > 0 {
@@ -638,16 +751,16 @@ func cmdRun(args []string) error {
 		if r.Chance(3, 5) {
 			maxram = uint64(2 + r.Intn(3))
 		}
-		fmt.Fprintln(w, runScript(durable, shard, maxram, genRandom(r, 5+r.Intn(*maxLen), durable)))
+		fmt.Fprintf(w, "%s|-|%s\n", runScript(durable, shard, maxram, genRandom(r, 5+r.Intn(*maxLen), durable)), tags())
 	}
 	for k := 0; k < *g; k++ {
 		durable := r.Chance(1, 2)
 		script := genClient(r, 8+r.Intn(*maxLen))
 		for _, c := range friendlyConfigs {
-			fmt.Fprintf(w, "%s|g%d\n", runScript(durable, c[0], uint64(c[1]), script), k)
+			fmt.Fprintf(w, "%s|g%d|%s\n", runScript(durable, c[0], uint64(c[1]), script), k, tags())
 		}
 		// the limit 1 as well (open finding F40: judged separately)
-		fmt.Fprintf(w, "%s|g%d\n", runScript(durable, 1, 1, script), k)
+		fmt.Fprintf(w, "%s|g%d|%s\n", runScript(durable, 1, 1, script), k, tags())
 	}
 	return nil
 }
@@ -658,7 +771,7 @@ func cmdRun(args []string) error {
 // the pops the loader runs inside the flush window (finding F24); with a longer pause it does not.
 func realtimeOnce(step time.Duration) (string, error) {
 	s := &loaderSync{}
-	pdb, tdb := newMemDB(s, true), newMemDB(s, false)
+	pdb, tdb := &orderedDB{newMemDB(), s, true}, &orderedDB{newMemDB(), s, false}
 	pst := msgstorage.NewMsgStorage(pdb, amqp.ProtoRabbit)
 	tst := msgstorage.NewMsgStorage(tdb, amqp.ProtoRabbit)
 	q := queue.NewQueue(qname, 0, false, false, false, config.Queue{ShardSize: 2, MaxMessagesInRAM: 2}, pst, tst, make(chan string, 16))
@@ -715,8 +828,16 @@ func cmdRealtime(args []string) error {
 }
 
 func cmdReplay(args []string) error {
+	fs := flag.NewFlagSet("replay", flag.ExitOnError)
+	if engine != "bunt" {
+		fs.StringVar(&engine, "engine", "mem", "mem | badger")
+	}
+	fs.StringVar(&badgerDir, "dir", "", "directory for the badger engines")
+	fs.BoolVar(&neighbours, "neighbours", false, "queues p and q2 keep messages in the same stores")
+	fs.Parse(args)
+	args = fs.Args()
 	if len(args) != 1 {
-		return fmt.Errorf("usage: replay '<durable>|<shard>|<maxram>|<labels or script>'")
+		return fmt.Errorf("usage: replay [-engine badger -dir D] [-neighbours] '<durable>|<shard>|<maxram>|<labels or script>'")
 	}
 	p := strings.Split(args[0], "|")
 	if len(p) < 4 {
